@@ -99,7 +99,7 @@ func pairVariants(c *Ctx, ctorA, ctorB, method, anchorA, anchorB string) (*varia
 			if !ok || len(ret.Results) != 1 {
 				return
 			}
-			v := ret.Results[0]
+			v := returnedValue(ret, 0)
 			if mi, ok := v.(*ssa.MakeInterface); ok {
 				v = mi.X
 			}
